@@ -213,6 +213,7 @@ def main():
     pass
   nsch = 120 if rep.tier == "quick" else 1500
   texts, items = [], []
+  n_traced = 0
   for si in range(nsch):
     start = int(rng.integers(0, 10))
     finish = start + int(rng.integers(0, 12))
@@ -247,6 +248,14 @@ def main():
     hooks = rng.integers(0, 3, size=int(rng.integers(5, 41))).tolist()
     hist = []
     ni = 0
+    # the compiled training step: a traced function reads whatever object held the factor when it was traced.  Traced right after
+    # on_train_begin (as Keras does), it must see every later update -- for quantizers that were used before training as well
+    traced = None
+    if si % 6 in (1, 4):
+      xprobe = tf.constant([0.3, -0.7, 0.05, 1.4, -2.2], dtype=tf.float32)
+      traced = [(k_, tf.function(lambda x, q_=qs[k_]: q_(x))) for k_ in (0, 2, 3)]
+      for _k, fn_ in traced:
+        fn_(xprobe)
     for h in hooks:
       before = int(cb.num_iters)
       if h == 0:
@@ -262,6 +271,16 @@ def main():
           v = q.qnoise_factor
           vals.append(float(v.numpy()) if hasattr(v, "numpy") else float(v))
         hist.append((freq, vals, float(cb.qnoise_factor) if cb.qnoise_factor is not None else None))
+        if traced is not None:
+          n_traced += 1
+          for k_, fn_ in traced:
+            yt, ye = fn_(xprobe).numpy(), qs[k_](xprobe).numpy()
+            if not np.allclose(yt, ye, rtol=0, atol=1e-6):
+              rep.violation(f"sched-traced-function-{si}-{k_}", f"after the update at step {freq} the quantizer {qs[k_]} evaluated inside a traced tf.function gives {yt.tolist()} "
+                            f"but eagerly (factor {vals[k_]}) {ye.tolist()}: the compiled step does not see the scheduler's factor",
+                            {"schedule": [start, finish, expo, uf, by_epoch, init], "hooks": hooks, "used_before_training": si % 3 == 1})
+              traced = None
+              break
     rep.count(("sched", start, finish, expo, uf, by_epoch, init, tuple(hooks)))
     # judge the history: per update step, all quantizers equal calc(last applied freq)
     last = None
@@ -295,7 +314,7 @@ def main():
       if v != 0:
         rep.violation(f"sched-value-{it[0]}", f"scheduler factor at step {it[7]} is {it[8]}, model calc differs "
                       f"(start={it[1]}, finish={it[2]}, exponent={it[3]})", {"schedule": it[1:7], "freq": it[7], "value": it[8]})
-  rep.note(scheduler=dict(schedules=nsch, update_values_compared_with_model=len(texts)))
+  rep.note(scheduler=dict(schedules=nsch, update_values_compared_with_model=len(texts), updates_seen_through_traced_functions=n_traced))
   rep.sample({"schedule": dict(start=start, finish=finish, exponent=expo, update_freq=uf, by_epoch=by_epoch, initial=init),
               "hooks(0=epoch_begin,1=batch_begin,2=epoch_end)": hooks, "history": hist[:4]})
   rep.assumptions += ["np.power(v, e) on [0,1] is an oracle in the theorems (pw: zero at 0, range [0,1], monotone); the run instantiates it with "
